@@ -13,8 +13,8 @@ Proof. exact iter_is_flatten. Qed.
 Print Assumptions C05_iter_is_flatten.
 
 (* Tree views = table views: iteration, length, depth, every per-depth array (computed through label widths,
-   i.e. through the stored offsets of the next sibling), the _blocks cache content, membership (keys up to
-   the depth) and label -> position lookup (offsets accumulated along the path) all describe flatten t. *)
+   i.e. through the stored offsets of the next sibling), the _blocks cache content, membership (keys of
+   any length) and label -> position lookup (offsets accumulated along the path) all describe flatten t. *)
 Theorem C05_views_agree : forall (A : Type) (eqb : A -> A -> bool),
   (forall x y, eqb x y = true <-> x = y) ->
   forall (t : level A) (h : nat), wf A eqb h t = true ->
@@ -24,7 +24,7 @@ Theorem C05_views_agree : forall (A : Type) (eqb : A -> A -> bool),
     Forall (fun r => length r = S h) (flatten t) /\
     (forall d, M_values_at_depth t d = Ok (S_column (flatten t) d)) /\
     M_blocks t = Ok (map (S_column (flatten t)) (seq 0 (S h))) /\
-    (forall key, (length key <= S h)%nat -> M_contains A eqb key t = S_contains A eqb (flatten t) key) /\
+    (forall key, M_contains A eqb key t = S_contains A eqb (flatten t) key) /\
     (forall key, M_leaf_loc A eqb key t 0 = S_lookup A eqb (flatten t) key).
 Proof. exact views_agree. Qed.
 Print Assumptions C05_views_agree.
@@ -33,7 +33,8 @@ Print Assumptions C05_views_agree.
    partial_selection, `except KeyError: pass`, flattening of the collected parts) returns exactly what the
    nested-loop specification over the flat tuples demands -- positions, their order (a list selector orders
    its level by the list) and the single-position flag -- for every well-formed tree and every key inside
-   the guard (masks at the innermost depth only, no half-open innermost label slice). *)
+   the guard (Boolean arrays at the innermost depth only and of the index length; at most one selector per
+   depth).  Half-open label slices at every depth are covered (open ends bounded by the leaf, fix cc33791). *)
 Theorem C05_hloc_exact : forall (A : Type) (eqb : A -> A -> bool),
   (forall x y, eqb x y = true <-> x = y) ->
   forall (key : list (sel A)) (t : level A) (h : nat),
@@ -53,14 +54,16 @@ Theorem C05_from_labels_exact : forall (A : Type) (eqb : A -> A -> bool),
 Proof. exact from_labels_exact. Qed.
 Print Assumptions C05_from_labels_exact.
 
-(* IndexHierarchyGO.append: whenever the builder admits the key (the guard that excludes the D4 input
-   class), the GO mutation along the last edge succeeds, adds exactly that tuple at the end and keeps the
-   tree well formed (offsets of the new subtree included). *)
+(* IndexHierarchyGO.append, for EVERY key: an admitted append adds exactly that tuple at the end and keeps
+   the tree well formed (offset of the new subtree included); a rejected one (wrong length, duplicate, or a
+   label that exists under an earlier branch -- the former D4 class, now RuntimeError) leaves tree and cache
+   unchanged. *)
 Theorem C05_append_exact : forall (A : Type) (eqb : A -> A -> bool),
   (forall x y, eqb x y = true <-> x = y) ->
-  forall (t : level A) (h : nat) (key : list A) (t' : level A),
-    wf A eqb h t = true -> length key = S h -> ins A eqb true t key = Ok t' ->
-    M_append A eqb t key = Ok t' /\ flatten t' = flatten t ++ [key] /\ wf A eqb h t' = true.
+  forall (t : level A) (h : nat) (key : list A),
+    wf A eqb h t = true ->
+    (forall t', M_append A eqb t key = Ok t' -> flatten t' = flatten t ++ [key] /\ wf A eqb h t' = true) /\
+    (forall e (st : ihgo A), g_tree st = t -> M_append A eqb t key = Err e -> go_step A eqb st (OAppend key) = st).
 Proof. exact append_exact. Qed.
 Print Assumptions C05_append_exact.
 
@@ -75,15 +78,16 @@ Theorem C05_extend_exact : forall (A : Type) (eqb : A -> A -> bool),
 Proof. exact extend_exact. Qed.
 Print Assumptions C05_extend_exact.
 
-(* All histories: after any admitted sequence of append / extend / read (reads materialise the cached
-   arrays at arbitrary points) the tree is well formed, denotes the initial tuples followed by the added
-   ones, and the lazily synchronised cache is coherent. *)
+(* All histories: after ANY sequence of append / extend / read (reads materialise the cached arrays at
+   arbitrary points; rejected operations add nothing: hist_rows) the tree is well formed, denotes the initial
+   tuples followed by the added ones, and the lazily synchronised cache is coherent.  The only hypothesis on
+   the operations is that an extend operand is itself a well-formed tree. *)
 Theorem C05_go_history : forall (A : Type) (eqb : A -> A -> bool),
   (forall x y, eqb x y = true <-> x = y) ->
   forall (ops : list (op A)) (st : ihgo A) (h : nat),
-    wf A eqb h (g_tree st) = true -> coherent A st -> hist_dom A eqb h st ops = true ->
+    wf A eqb h (g_tree st) = true -> coherent A st -> forallb (op_dom A eqb h) ops = true ->
     wf A eqb h (g_tree (fold_left (go_step A eqb) ops st)) = true /\
-    flatten (g_tree (fold_left (go_step A eqb) ops st)) = flatten (g_tree st) ++ flat_map (op_rows A) ops /\
+    flatten (g_tree (fold_left (go_step A eqb) ops st)) = flatten (g_tree st) ++ hist_rows A eqb st ops /\
     coherent A (fold_left (go_step A eqb) ops st).
 Proof. exact go_history. Qed.
 Print Assumptions C05_go_history.
@@ -92,9 +96,9 @@ Print Assumptions C05_go_history.
 Theorem C05_history_blocks : forall (A : Type) (eqb : A -> A -> bool),
   (forall x y, eqb x y = true <-> x = y) ->
   forall (ops : list (op A)) (st : ihgo A) (h : nat),
-    wf A eqb h (g_tree st) = true -> coherent A st -> hist_dom A eqb h st ops = true ->
+    wf A eqb h (g_tree st) = true -> coherent A st -> forallb (op_dom A eqb h) ops = true ->
     go_blocks (fold_left (go_step A eqb) ops st) =
-    Ok (map (S_column (flatten (g_tree st) ++ flat_map (op_rows A) ops)) (seq 0 (S h))).
+    Ok (map (S_column (flatten (g_tree st) ++ hist_rows A eqb st ops)) (seq 0 (S h))).
 Proof. exact history_blocks. Qed.
 Print Assumptions C05_history_blocks.
 
@@ -135,6 +139,9 @@ Theorem C05_source_shape :
   gen_key_multiple_types = ["slice"%string; "list"%string; "ndarray"%string] /\
   gen_go_append_descends_last_edge = true /\
   gen_go_append_new_offset_is_len = true /\
+  gen_go_append_rejects_non_last_label = true /\
+  gen_locmap_open_slice_ends_bounded = true /\
+  gen_contains_requires_key_end = true /\
   gen_go_append_sets_recache = true /\
   gen_go_extend_sets_recache = true.
 Proof. exact source_shape_ok. Qed.
